@@ -162,9 +162,9 @@ class Gen:
     def leaf(self, allow_any):
         r = self.rng
         k = r.below(100)
-        if k < 40:
+        if k < 34:
             return Leaf("lit", text=self.lit())
-        if k < 72:
+        if k < 62:
             l = Leaf("probe")
             l.k = self.probe_ref(id(l))
             return l
@@ -720,7 +720,7 @@ def main(seed, tier):
     if not determinism_probe(seed):
         raise HarnessError("C17 determinism self-check failed (same seed, different invocation history)")
     quick = tier == "quick"
-    ngram = 48 if quick else 700
+    ngram = 48 if quick else 450
     nlines = 14 if quick else 28
     nbatches = 1 if quick else 2
     jobs = [(g, seed, nlines, nbatches) for g in range(ngram)]
